@@ -10,18 +10,54 @@ sexp kit_the_ctx;
 #ifndef KIT_MAX_WORDS
 #define KIT_MAX_WORDS 24
 #endif
-static void *kit_alloc_n(size_t n) {
+#include "objalloc.h"
+
+/* generic fallback objects: header + n-1 pointer-typed (or integer-typed) words */
+#define KIT_PAYLOADS(X) X(1) X(2) X(3) X(4) X(5) X(6) X(7) X(8) X(9) X(10) X(11) X(12) X(13) X(14) X(15) X(16) \
+  X(17) X(18) X(19) X(20) X(21) X(22) X(23) X(24) X(25) X(26) X(27) X(28) X(29) X(30) X(31) X(32)
+#define KIT_DEF(P) struct kit_obj_##P { KIT_HDR sexp w[P]; }; static void *kit_new_##P(void) KIT_ZNEW(kit_obj_##P)
+KIT_PAYLOADS(KIT_DEF)
+#define KIT_IDEF(P) struct kit_iobj_##P { KIT_HDR sexp_uint_t w[P]; }; static void *kit_inew_##P(void) KIT_ZNEW(kit_iobj_##P)
+KIT_PAYLOADS(KIT_IDEF)
+
+void *kit_alloc_n(size_t n) {
 #ifdef KIT_NATIVE
   return calloc(n ? n : 1, sizeof(sexp_uint_t));
 #else
+#define KIT_SW(P) case P + 1: return kit_new_##P();
+  switch (n) {
+  case 1: return kit_newf_hdr();
+  KIT_PAYLOADS(KIT_SW)
+  default: break;
+  }
+  sexp *p = malloc(n * sizeof(sexp));     /* large: plain array of words */
+  __CPROVER_assume(p != 0);
+  __CPROVER_array_set(p, (sexp)0);
+  return p;
+#endif
+}
+void *kit_alloc_in(size_t n) {
+#ifdef KIT_NATIVE
+  return calloc(n ? n : 1, sizeof(sexp_uint_t));
+#else
+#define KIT_ISW(P) case P + 1: return kit_inew_##P();
+  switch (n) {
+  case 1: return kit_newf_hdr();
+  KIT_PAYLOADS(KIT_ISW)
+  default: break;
+  }
   sexp_uint_t *p = malloc(n * sizeof(sexp_uint_t));
   __CPROVER_assume(p != 0);
   __CPROVER_array_set(p, (sexp_uint_t)0);
   return p;
 #endif
 }
-#define KIT_CASE(k) case k: return kit_alloc_n(k);
-void *kit_alloc_words(size_t bytes) {
+static int kit_numeric_tag(sexp_uint_t tag) {
+  return tag == SEXP_BIGNUM || tag == SEXP_BYTES || tag == SEXP_FLONUM || tag == SEXP_SYMBOL;
+}
+
+#define KIT_CASE(k) case k: return numeric ? kit_alloc_in(k) : kit_alloc_n(k);
+static void *kit_alloc_words2(size_t bytes, int numeric) {
   size_t n = (bytes + sizeof(sexp_uint_t) - 1) / sizeof(sexp_uint_t);
 #ifdef KIT_NATIVE
   return kit_alloc_n(n);
@@ -37,15 +73,23 @@ void *kit_alloc_words(size_t bytes) {
     KIT_CASE(16) KIT_CASE(17) KIT_CASE(18) KIT_CASE(19) KIT_CASE(20) KIT_CASE(21) KIT_CASE(22) KIT_CASE(23)
     KIT_CASE(24)
 #if KIT_MAX_WORDS > 24
-    default: return kit_alloc_n(KIT_MAX_WORDS);   /* over-sized block: exact bounds not enforced above 24 words */
+    default: return numeric ? kit_alloc_in(KIT_MAX_WORDS) : kit_alloc_n(KIT_MAX_WORDS);
 #endif
   }
-  return kit_alloc_n(KIT_MAX_WORDS);
+  return numeric ? kit_alloc_in(KIT_MAX_WORDS) : kit_alloc_n(KIT_MAX_WORDS);
 #endif
 }
+void *kit_alloc_words(size_t bytes) { return kit_alloc_words2(bytes, 0); }
 
+/* harness-side builder: the size is a concrete number, no case split needed */
 sexp kit_alloc_tagged(size_t bytes, sexp_uint_t tag) {
-  sexp res = (sexp) kit_alloc_words(bytes);
+  size_t n = (bytes + sizeof(sexp_uint_t) - 1) / sizeof(sexp_uint_t);
+#ifdef KIT_NATIVE
+  sexp res = (sexp) calloc(bytes ? bytes : 1, 1);
+#else
+  sexp res = (sexp) kit_typed_object(bytes, tag);
+  if (!res) res = (sexp) (kit_numeric_tag(tag) ? kit_alloc_in(n) : kit_alloc_n(n));
+#endif
   sexp_pointer_tag(res) = tag;
   return res;
 }
@@ -54,37 +98,21 @@ sexp kit_alloc_tagged(size_t bytes, sexp_uint_t tag) {
 void *sexp_alloc(sexp ctx, size_t size) { return kit_alloc_words(size); }
 #endif
 
-#ifndef KIT_REAL_SEXP
+/* the five-line tag-setting wrapper of sexp.c; modelled here in every harness so that the payload
+   flavour can follow the tag (the real body is removed with goto-instrument when sexp.c is linked) */
 sexp sexp_alloc_tagged_aux(sexp ctx, size_t size, sexp_uint_t tag) {
-  return kit_alloc_tagged(size, tag);
+#ifdef KIT_NATIVE
+  sexp res = (sexp) calloc(size ? size : 1, 1);
+#else
+  sexp res = (sexp) kit_typed_object(size, tag);
+  if (!res) res = (sexp) kit_alloc_words2(size, kit_numeric_tag(tag));
+#endif
+  sexp_pointer_tag(res) = tag;
+  return res;
 }
+#ifndef KIT_REAL_SEXP
 
-static sexp kit_exception(sexp ctx, sexp self, sexp irritants) {
-  sexp e = kit_alloc_tagged(sexp_sizeof(exception), SEXP_EXCEPTION);
-  sexp_exception_kind(e) = SEXP_FALSE;
-  sexp_exception_message(e) = SEXP_FALSE;
-  sexp_exception_irritants(e) = irritants;
-  sexp_exception_procedure(e) = self;
-  sexp_exception_source(e) = SEXP_FALSE;
-  sexp_exception_stack_trace(e) = SEXP_FALSE;
-  kit_exceptions_made++;
-  return e;
-}
-sexp sexp_type_exception(sexp ctx, sexp self, sexp_uint_t type_id, sexp x) {
-  return kit_exception(ctx, self, x);
-}
-sexp sexp_xtype_exception(sexp ctx, sexp self, const char *msg, sexp x) {
-  return kit_exception(ctx, self, x);
-}
-sexp sexp_range_exception(sexp ctx, sexp obj, sexp start, sexp end) {
-  return kit_exception(ctx, SEXP_FALSE, obj);
-}
-sexp sexp_user_exception(sexp ctx, sexp self, const char *msg, sexp x) {
-  return kit_exception(ctx, self, x);
-}
-sexp sexp_user_exception_ls(sexp ctx, sexp self, const char *msg, int n, ...) {
-  return kit_exception(ctx, self, SEXP_NULL);
-}
+#include "exc_models.c"
 sexp sexp_make_flonum(sexp ctx, double f) {
   sexp x = kit_alloc_tagged(sexp_sizeof(flonum), SEXP_FLONUM);
   sexp_flonum_value(x) = f;
@@ -99,12 +127,27 @@ sexp sexp_cons_op(sexp ctx, sexp self, sexp_sint_t n, sexp head, sexp tail) {
 }
 #endif
 
+/* vectors longer than the case-split range (globals, type table): dedicated typed layout */
+#define KIT_BIGVEC 96
+struct kit_bigvec { KIT_HDR KIT_M(vector) m; sexp tail[KIT_BIGVEC]; };
+sexp kit_big_vector(sexp_uint_t n) {
+  struct kit_bigvec *p = malloc(sizeof(struct kit_bigvec));
+#ifndef KIT_NATIVE
+  __CPROVER_assume(p != 0);
+  __CPROVER_assert(n <= KIT_BIGVEC, "PROP kit_big_vector bound");
+#endif
+  struct kit_bigvec z = {0}; *p = z;
+  sexp_pointer_tag((sexp)p) = SEXP_VECTOR;
+  sexp_vector_length((sexp)p) = n;
+  return (sexp) p;
+}
+
 sexp kit_ctx(void) {
-  if (!kit_the_ctx) {
-    sexp ctx = (sexp) kit_alloc_n((sexp_sizeof(context) + 7) / 8);
-    sexp_pointer_tag(ctx) = SEXP_CONTEXT;
-    sexp g = (sexp) kit_alloc_n((sexp_sizeof(vector) + SEXP_G_NUM_GLOBALS * sizeof(sexp) + 7) / 8);
-    sexp_pointer_tag(g) = SEXP_VECTOR;
+  static int ready;
+  if (!ready) {
+    ready = 1;
+    sexp ctx = kit_alloc_tagged(sexp_sizeof(context), SEXP_CONTEXT);
+    sexp g = kit_big_vector(SEXP_G_NUM_GLOBALS);
     sexp_vector_length(g) = SEXP_G_NUM_GLOBALS;
 #ifdef KIT_NATIVE
     for (int i = 0; i < SEXP_G_NUM_GLOBALS; i++) sexp_vector_data(g)[i] = SEXP_VOID;
